@@ -499,3 +499,24 @@ def paths_under(g, N, env, enums=None, max_visits=1):
                     break
         if ok:
             yield path
+
+
+NARROW_INT = {'char', 'signed char', 'unsigned char', 'short', 'unsigned short', 'int', 'unsigned int', 'uint8_t', 'uint16_t', 'uint32_t', 'int8_t', 'int16_t', 'int32_t'}
+WIDE_INT = {'long', 'unsigned long', 'long long', 'unsigned long long', 'uint64_t', 'int64_t', 'size_t', 'uintptr_t', 'intptr_t'}
+
+
+def narrowing_conversions(P, fn):
+    """(line, target type, operand) of every conversion in fn that takes a 64-bit integer to a narrower integer type (implicit or a cast)"""
+    from . import cint
+    it = cint.CInt(P, fn)
+    out = []
+    for e, ln in ir.all_exprs(fn['body']):
+        for x in ir.walk(e):
+            if x[0] in ('icast', 'cast') and x[1] in NARROW_INT:
+                try:
+                    t = it.type_of(x[2])
+                except Exception:
+                    t = None
+                if t in WIDE_INT:
+                    out.append((ln, x[1], x[2]))
+    return out
